@@ -29,6 +29,7 @@ LEVEL_TEXT = ('Lean 4 theorems, for all lists of tilt elements (angular, first-o
               'first_order_closed_form_is_solution: the generated closed-form branch is exactly the solution of that contract; linear_trace_arc_length: with a linear trace the closed-form x '
               'is at arc length dist for ANY dist (only the dispersion root stays a contract). fit_tilt_propagates_like_original composes the two halves: the plane fit_tilt returns '
               '(its OPD, the recorded Tilt as metadata, any split) and the original plane give the same complex value at every output sample both evaluate, for ANY solver coefficients; '
+              'fit_tilt_image_is_original_fraunhofer: composed with C02, every sample the fitted plane evaluates is the Fraunhofer sum of the ORIGINAL plane\'s field at that coordinate; '
               'fit_tilt_seg_propagates_like_original: the same for each segment of a segmented plane with its own recorded Tilt (fitTiltOpdSeg, disjoint binary masks). The field in the end-to-end theorems is the '
               'plane model\'s segment phasor (C03/C07 segPhasor/planePh) and the theorem covers any list of angular elements; for a segmented plane '
               'whose segments carry DIFFERENT tilts, segmented_tilt_equiv_complex: the sum over segments of the per-segment propagations with tilt metadata '
